@@ -220,6 +220,52 @@ def run(res: Results, idx: Index, tier: str) -> None:
     else:
         res.violation("R-C05c", f"{UI}:{t.node.lineno}", key, "no input_params / io-name collision check raises before the converter call", t.qualname)
 
+    # ---- R-C05e: declared element type and shape of every graph input / output derive from the aval of the traced
+    # variable it stands for (through the float policy `_dtype_to_ir` and `_to_ir_shape`), never from a constant
+    res.rule("R-C05e", "interface values take their declared element type and shape from the traced variable's aval", floor=3)
+    CTX = "jax2onnx/converter/ir_context.py"
+    fin = idx.func(CTX, "IRContext.add_input_for_invar")
+    du_i = defuse(fin.node)
+    ctor = [c for c in walk_no_nested(fin.node) if isinstance(c, ast.Call) and (call_name(c) or "") in ("ir.Value", "ir.val")]
+    if not ctor:
+        raise AnalysisError("add_input_for_invar: no ir.Value construction found")
+    for c in ctor:
+        for kw_name, accessor in (("type", "_maybe_dtype"), ("shape", "_maybe_shape")):
+            kw = next((k.value for k in c.keywords if k.arg == kw_name), None)
+            key = f"{CTX}::IRContext.add_input_for_invar::{kw_name}-from-aval"
+            site = f"{CTX}:{c.lineno}"
+            if kw is None:
+                res.violation("R-C05e", site, key, f"the graph input is created without a declared {kw_name}", fin.qualname)
+                continue
+            cl = du_i.closure(names_in(kw)) | names_in(kw)
+            vals = [v for n_ in cl for v in du_i.values(n_)] + [kw]
+            via = any(isinstance(x, ast.Call) and (call_name(x) or "").split(".")[-1] == accessor for v in vals for x in ast.walk(v))
+            if via and "var" in cl:
+                res.ok("R-C05e", site, key, f"`{src(kw, 50)}` derives from {accessor}(aval of var)", fin.qualname)
+            else:
+                res.violation("R-C05e", site, key, f"the declared {kw_name} `{src(kw, 50)}` of a graph input does not derive from the traced variable's aval ({accessor})", fin.qualname)
+    fout = idx.func(CTX, "IRContext.add_outputs_from_vars")
+    du_o = defuse(fout.node)
+    key = f"{CTX}::IRContext.add_outputs_from_vars::target-type-from-aval"
+    tdefs = [d for d in du_o.defs.get("target_enum", []) if d.value is not None and not (isinstance(d.value, ast.Constant) and d.value.value is None)]
+    loop = next((lp for lp in walk_no_nested(fout.node) if isinstance(lp, ast.For) and "outvars" in names_in(lp.iter)), None)
+    if not tdefs or loop is None:
+        raise AnalysisError("add_outputs_from_vars: target_enum / loop over outvars not found")
+    loop_vars = names_in(loop.target)
+    bad = []
+    for d in tdefs:
+        if isinstance(d.value, ast.Name) and d.value.id == "current_enum":
+            continue  # keeps the element type the lowering produced (policy branches)
+        cl = du_o.closure(names_in(d.value)) | names_in(d.value)
+        vals = [v for n_ in cl for v in du_o.values(n_)] + [d.value]
+        via = any(isinstance(x, ast.Call) and (call_name(x) or "").split(".")[-1] == "_maybe_dtype" for v in vals for x in ast.walk(v))
+        if not (via and (cl & loop_vars)):
+            bad.append(d)
+    if bad:
+        res.violation("R-C05e", f"{CTX}:{bad[0].stmt.lineno}", key, f"the declared output element type `{src(bad[0].value, 50)}` does not derive from the aval dtype of the output variable", fout.qualname)
+    else:
+        res.ok("R-C05e", f"{CTX}:{tdefs[0].stmt.lineno}", key, f"{len(tdefs)} definitions of the output's target type derive from _maybe_dtype(aval of the output variable) or keep the produced type", fout.qualname)
+
     # ---- R-C05d: the optimizer's annotation refresh can land on a value that is (or is re-routed to) a graph output,
     # so the declared element type / shape of the interface depends on it: the refresh rules of C08 are re-decided here
     if not getattr(res, "_nested_xref", False):
